@@ -14,7 +14,10 @@
     for every sufficiently large fuel (`keySafe` inspects only what `evalT2` executes, which depends
     on the fuel); it is inherited by every sub-run that is really executed (`KeySafeEv.ph_*`,
     `KeySafeEv.phd_*`), follows from the static table-level predicate (`KeySafeEv.of_static`) and
-    from key-safety of ONE run that ends (`KeySafeEv.of_run`).
+    from key-safety of ONE run that ends (`KeySafeEv.of_run`);
+  * totality of the evaluator (`evalT2_total`: every table, template and stack; measure = placeholder
+    texts not yet on the stack, then the structure of the template), by which all these forms of
+    the hypothesis say the same: the run is key-safe when it has ended (`KeySafeEv.of_ended/ended`).
 -/
 import YtkProofs.ResolverNested
 import YtkProofs.ResolverRelex
@@ -635,5 +638,136 @@ theorem resolves_relex_iff_id {d : Delims} (hd : d.LexOK) {tbl : Table}
     exact ⟨n, by rw [← resolve_relex_eq_id hd hc n s seen hs]; exact hn, hne⟩
   · rintro ⟨n, hn, hne⟩
     exact ⟨n, by rw [resolve_relex_eq_id hd hc n s seen hs]; exact hn, hne⟩
+
+/-! ## the evaluator is total (no hypothesis on the table, the template or the stack) -/
+
+/-- the texts of all placeholders of a template, at every depth -/
+def Tmpl2.phs : Tmpl2 → List Toks
+  | .done => []
+  | .lit _ rest => rest.phs
+  | .ph key rest => render2 key :: (key.phs ++ rest.phs)
+  | .phd key d rest => rawD2 key d :: (key.phs ++ (d.phs ++ rest.phs))
+
+/-- measure: (placeholder texts of the template and of the table values that are not on the stack,
+    structure of the template).  Every descent into a key, a default or a looked-up value pushes a
+    text of the finite list `W` that is not yet on the stack; the rest of a template is smaller. -/
+theorem evalT2_total_aux (tt : TTable2) (W : List Toks) (hW : ∀ kv ∈ tt, ∀ x ∈ kv.2.phs, x ∈ W) :
+    ∀ (r : Nat) (t : Tmpl2) (st : List Toks), (∀ x ∈ t.phs, x ∈ W) → remaining W st = r →
+      ∃ m, evalT2 tt m t st ≠ .outOfFuel := by
+  intro r
+  induction r using Nat.strongRecOn with
+  | ind r ihr =>
+    intro t
+    induction t with
+    | done => intro st _ _; exact ⟨1, by simp [evalT2]⟩
+    | lit a rest iht =>
+      intro st hsub hr
+      obtain ⟨m, hm⟩ := iht st (fun x hx => hsub x (by simpa [Tmpl2.phs] using hx)) hr
+      exact ⟨m + 1, by simp only [evalT2]; exact prepend_ne_outOfFuel.mpr hm⟩
+    | ph key rest _ iht =>
+      intro st hsub hr
+      by_cases hc : st.contains (render2 key) = true
+      · exact ⟨1, by simp only [evalT2]; rw [if_pos hc]; simp⟩
+      · have hn : render2 key ∉ st := by simpa using hc
+        have hc' : st.contains (render2 key) = false := by simpa using hc
+        have hlt : remaining W (st ++ [render2 key]) < r := by
+          rw [← hr]; exact remaining_push_lt (hsub _ (by simp [Tmpl2.phs])) hn
+        obtain ⟨m₁, hm₁⟩ := ihr _ hlt key _
+          (fun x hx => hsub x (by simp [Tmpl2.phs, hx])) rfl
+        obtain ⟨m₂, hm₂⟩ := iht st (fun x hx => hsub x (by simp [Tmpl2.phs, hx])) hr
+        cases e1 : evalT2 tt m₁ key (st ++ [render2 key]) with
+        | outOfFuel => exact absurd e1 hm₁
+        | cycle o =>
+          exact ⟨m₁ + 1, by simp only [evalT2, hc', Bool.false_eq_true, ↓reduceIte, e1]; simp⟩
+        | ok k' =>
+          cases hg : tt.get k' with
+          | none =>
+            refine ⟨max m₁ m₂ + 1, ?_⟩
+            have a1 := evalT2_ok_mono e1 (Nat.le_max_left m₁ m₂)
+            have a2 := evalT2_fuel_mono tt (Nat.le_max_right m₁ m₂) rest st hm₂
+            simp only [evalT2, hc', Bool.false_eq_true, ↓reduceIte, a1, hg, a2]
+            exact prepend_ne_outOfFuel.mpr hm₂
+          | some v =>
+            obtain ⟨k, hk⟩ := TTable2.get_mem hg
+            obtain ⟨m₃, hm₃⟩ := ihr _ hlt v _ (hW _ hk) rfl
+            have a1 := evalT2_ok_mono e1 (Nat.le_max_left m₁ (max m₂ m₃))
+            have a2 := evalT2_fuel_mono tt (by omega : m₂ ≤ max m₁ (max m₂ m₃)) rest st hm₂
+            have a3 := evalT2_fuel_mono tt (by omega : m₃ ≤ max m₁ (max m₂ m₃)) v _ hm₃
+            refine ⟨max m₁ (max m₂ m₃) + 1, ?_⟩
+            cases e2 : evalT2 tt m₃ v (st ++ [render2 key]) with
+            | outOfFuel => exact absurd e2 hm₃
+            | cycle o =>
+              simp only [evalT2, hc', Bool.false_eq_true, ↓reduceIte, a1, hg, a3, e2]; simp
+            | ok v' =>
+              simp only [evalT2, hc', Bool.false_eq_true, ↓reduceIte, a1, hg, a3, e2, a2]
+              exact prepend_ne_outOfFuel.mpr hm₂
+    | phd key d rest _ _ iht =>
+      intro st hsub hr
+      by_cases hc : st.contains (rawD2 key d) = true
+      · exact ⟨1, by simp only [evalT2]; rw [if_pos hc]; simp⟩
+      · have hn : rawD2 key d ∉ st := by simpa using hc
+        have hc' : st.contains (rawD2 key d) = false := by simpa using hc
+        have hlt : remaining W (st ++ [rawD2 key d]) < r := by
+          rw [← hr]; exact remaining_push_lt (hsub _ (by simp [Tmpl2.phs])) hn
+        obtain ⟨m₁, hm₁⟩ := ihr _ hlt key _
+          (fun x hx => hsub x (by simp [Tmpl2.phs, hx])) rfl
+        obtain ⟨m₂, hm₂⟩ := ihr _ hlt d _
+          (fun x hx => hsub x (by simp [Tmpl2.phs, hx])) rfl
+        obtain ⟨m₃, hm₃⟩ := iht st (fun x hx => hsub x (by simp [Tmpl2.phs, hx])) hr
+        cases e1 : evalT2 tt m₁ key (st ++ [rawD2 key d]) with
+        | outOfFuel => exact absurd e1 hm₁
+        | cycle o =>
+          exact ⟨m₁ + 1, by simp only [evalT2, hc', Bool.false_eq_true, ↓reduceIte, e1]; simp⟩
+        | ok k' =>
+          cases e3 : evalT2 tt m₂ d (st ++ [rawD2 key d]) with
+          | outOfFuel => exact absurd e3 hm₂
+          | cycle o =>
+            refine ⟨max m₁ m₂ + 1, ?_⟩
+            have a1 := evalT2_ok_mono e1 (Nat.le_max_left m₁ m₂)
+            have a2 := evalT2_fuel_mono tt (Nat.le_max_right m₁ m₂) d _ hm₂
+            simp only [evalT2, hc', Bool.false_eq_true, ↓reduceIte, a1, a2, e3]; simp
+          | ok d' =>
+            cases hg : tt.get k' with
+            | none =>
+              refine ⟨max m₁ (max m₂ m₃) + 1, ?_⟩
+              have a1 := evalT2_ok_mono e1 (Nat.le_max_left m₁ (max m₂ m₃))
+              have a2 := evalT2_ok_mono e3 (by omega : m₂ ≤ max m₁ (max m₂ m₃))
+              have a3 := evalT2_fuel_mono tt (by omega : m₃ ≤ max m₁ (max m₂ m₃)) rest st hm₃
+              simp only [evalT2, hc', Bool.false_eq_true, ↓reduceIte, a1, a2, hg, a3]
+              exact prepend_ne_outOfFuel.mpr hm₃
+            | some v =>
+              obtain ⟨k, hk⟩ := TTable2.get_mem hg
+              obtain ⟨m₄, hm₄⟩ := ihr _ hlt v _ (hW _ hk) rfl
+              have a1 := evalT2_ok_mono e1 (Nat.le_max_left m₁ (max m₂ (max m₃ m₄)))
+              have a2 := evalT2_ok_mono e3 (by omega : m₂ ≤ max m₁ (max m₂ (max m₃ m₄)))
+              have a3 := evalT2_fuel_mono tt (by omega : m₃ ≤ max m₁ (max m₂ (max m₃ m₄))) rest st hm₃
+              have a4 := evalT2_fuel_mono tt (by omega : m₄ ≤ max m₁ (max m₂ (max m₃ m₄))) v _ hm₄
+              refine ⟨max m₁ (max m₂ (max m₃ m₄)) + 1, ?_⟩
+              cases e2 : evalT2 tt m₄ v (st ++ [rawD2 key d]) with
+              | outOfFuel => exact absurd e2 hm₄
+              | cycle o =>
+                simp only [evalT2, hc', Bool.false_eq_true, ↓reduceIte, a1, a2, hg, a4, e2]; simp
+              | ok v' =>
+                simp only [evalT2, hc', Bool.false_eq_true, ↓reduceIte, a1, a2, hg, a4, e2, a3]
+                exact prepend_ne_outOfFuel.mpr hm₃
+
+/-- TOTALITY of the reference evaluator: for every table, template and stack some fuel suffices -/
+theorem evalT2_total (tt : TTable2) (t : Tmpl2) (st : List Toks) :
+    ∃ m, evalT2 tt m t st ≠ .outOfFuel :=
+  evalT2_total_aux tt (t.phs ++ tt.flatMap fun kv => kv.2.phs)
+    (fun kv hkv _ hx => List.mem_append_right _ (List.mem_flatMap.mpr ⟨kv, hkv, hx⟩))
+    _ t st (fun _ hx => List.mem_append_left _ hx) rfl
+
+/-- hence "the run is key-safe" has a fuel-free meaning: key-safe whenever it has ended -/
+theorem KeySafeEv.of_ended {tt : TTable2} {t : Tmpl2} {st : List Toks}
+    (h : ∀ m, evalT2 tt m t st ≠ .outOfFuel → keySafe tt m t st = true) : KeySafeEv tt t st := by
+  obtain ⟨m, hm⟩ := evalT2_total tt t st
+  exact KeySafeEv.of_run hm (h m hm)
+
+theorem KeySafeEv.ended {tt : TTable2} {t : Tmpl2} {st : List Toks} (h : KeySafeEv tt t st) {m : Nat}
+    (hm : evalT2 tt m t st ≠ .outOfFuel) : keySafe tt m t st = true := by
+  obtain ⟨m0, h0⟩ := h
+  rw [← keySafe_fuel_mono tt (Nat.le_max_left m m0) t st hm]
+  exact h0 _ (Nat.le_max_right m m0)
 
 end Ytk.Resolver
